@@ -758,7 +758,7 @@ func (f *FnVC) binop(x *ssa.BinOp) {
 		}
 	case token.MUL:
 		if isReal {
-			t = "(* " + a.T + " " + b.T + ")"
+			t = "(" + f.rmulSym(a.T, b.T) + " " + a.T + " " + b.T + ")"
 		} else {
 			t = f.wrap("(* "+a.T+" "+b.T+")", ty)
 		}
@@ -897,6 +897,21 @@ func (f *FnVC) rdivSym(divisor string) string {
 		return "/"
 	}
 	return f.declFun("rdivu", []string{"Real", "Real"}, "Real")
+}
+
+// rmulSym: real multiplication of two non-constant factors is uninterpreted under `opaque division`.
+func (f *FnVC) rmulSym(a, b string) string {
+	if f.c == nil || !f.c.OpaqueDiv {
+		return "*"
+	}
+	isNum := func(x string) bool {
+		x = strings.TrimSpace(x)
+		return strings.HasPrefix(x, "(/ ") || regexpNumeral.MatchString(x)
+	}
+	if isNum(a) || isNum(b) {
+		return "*"
+	}
+	return f.declFun("rmulu", []string{"Real", "Real"}, "Real")
 }
 
 var regexpNumeral = regexp.MustCompile(`^-?[0-9]+(\.[0-9]+)?$`)
